@@ -235,11 +235,17 @@ type obs struct {
 	InFlight int                 `json:"in_flight,omitempty"`
 }
 
-func observe(tb *trace.C13Table) (*obs, error) {
+// observe reads the state back through the real read paths.  light skips the two query pipelines (the state before a
+// step is needed only for its parts and secondary-index rows: digest, survivors).
+func observe(tb *trace.C13Table, light bool) (*obs, error) {
 	o := &obs{Visible: map[string][]string{}, Sidx: map[string][]int64{}, TableGen: tb.FinalizeGen(), InFlight: tb.InFlight()}
-	q, err := tb.Query(traceIDs)
-	if err != nil {
-		return nil, fmt.Errorf("query: %w", err)
+	var q map[string][]trace.C13Obs
+	var err error
+	if !light {
+		q, err = tb.Query(traceIDs)
+		if err != nil {
+			return nil, fmt.Errorf("query: %w", err)
+		}
 	}
 	for t, spans := range q {
 		for _, s := range spans {
@@ -250,9 +256,11 @@ func observe(tb *trace.C13Table) (*obs, error) {
 		}
 		sort.Strings(o.Visible[t])
 	}
-	o.OrdSeq, o.Ordered, err = tb.QueryOrdered()
-	if err != nil {
-		return nil, fmt.Errorf("ordered query: %w", err)
+	if !light {
+		o.OrdSeq, o.Ordered, err = tb.QueryOrdered()
+		if err != nil {
+			return nil, fmt.Errorf("ordered query: %w", err)
+		}
 	}
 	for t := range o.Ordered {
 		sort.Strings(o.Ordered[t])
@@ -395,7 +403,7 @@ func toSpans(names []string) []trace.C13Span {
 	return out
 }
 
-// fileOrdinals maps the ordinals of an M op to part ids of the current snapshot.
+// partIDs maps the ordinals of an M op to part ids of the current snapshot.
 func partIDs(o *obs, ords []int) ([]uint64, error) {
 	var ids []uint64
 	for _, i := range ords {
@@ -574,6 +582,10 @@ func checkStep(c Cfg, op Op, si stepInfo, m model, pre, post *obs, smp *sampler)
 				switch {
 				case len(got) == 0 && dropOK:
 					notes = append(notes, "dropped-whole-trace")
+					if c.Clock == "immature" || (t == "B" && (c.Clock == "partial" || c.Clock == "boundary")) {
+						// not a violation (the property text does not state merge_grace semantics); expected 0
+						notes = append(notes, "dropped-whole-trace-while-immature")
+					}
 					if smp != nil && smp.seen[t] == 0 {
 						notes = append(notes, "dropped-without-decide?")
 					}
@@ -688,14 +700,14 @@ func execute(h Hist, m0 *model, preDigest string, checkAll bool) (res execResult
 	m := model{Expect: map[string][]string{}}
 	var pre *obs
 	if checkAll {
-		if pre, err = observe(tb); err != nil {
+		if pre, err = observe(tb, false); err != nil {
 			return res, err
 		}
 	}
 	for i, op := range h.Ops {
 		last := i == len(h.Ops)-1
 		if last && !checkAll {
-			if pre, err = observe(tb); err != nil {
+			if pre, err = observe(tb, true); err != nil {
 				return res, err
 			}
 			m = m0.clone()
@@ -704,7 +716,7 @@ func execute(h Hist, m0 *model, preDigest string, checkAll bool) (res execResult
 				return res, nil
 			}
 		} else if !checkAll && needsObs(op) {
-			if pre, err = observe(tb); err != nil {
+			if pre, err = observe(tb, true); err != nil {
 				return res, err
 			}
 		}
@@ -713,7 +725,7 @@ func execute(h Hist, m0 *model, preDigest string, checkAll bool) (res execResult
 			return res, fmt.Errorf("%s: op %d: %w", h, i, aerr)
 		}
 		if last || checkAll {
-			post, oerr := observe(tb)
+			post, oerr := observe(tb, false)
 			if oerr != nil {
 				return res, fmt.Errorf("%s: after op %d: %w", h, i, oerr)
 			}
@@ -922,6 +934,7 @@ func (u unit) String() string { return fmt.Sprintf("%s first=%v depth=%d", u.Cfg
 
 type unitResult struct {
 	Unit        string         `json:"unit"`
+	Cfg         string         `json:"cfg"`
 	HarnessErr  string         `json:"harness_err,omitempty"`
 	Outcomes    map[string]int `json:"outcomes"`
 	Notes       map[string]int `json:"notes"`
@@ -947,7 +960,7 @@ type node struct {
 }
 
 func runUnit(u unit, deadline time.Time) unitResult {
-	r := unitResult{Unit: u.String(), Outcomes: map[string]int{}, Notes: map[string]int{}, OpKinds: map[string]int{}, ByDepth: make([]int, u.Depth+1)}
+	r := unitResult{Unit: u.String(), Cfg: fmt.Sprintf("%s mode=%s spans=%s depth<=%d", u.Cfg, u.Cfg.Mode, u.Cfg.Spans, u.Depth), Outcomes: map[string]int{}, Notes: map[string]int{}, OpKinds: map[string]int{}, ByDepth: make([]int, u.Depth+1)}
 	seen := map[string]bool{}
 	seenViol := map[string]bool{}
 	var frontier []node
@@ -1068,17 +1081,14 @@ func specs(thorough bool) []cfgSpec {
 			{lay("drop-all", "mature"), 4},
 			{lay("error", "mature"), 4},
 			{lay("panic", "mature"), 4},
-			{lay("mismatch", "mature"), 4},
 			{lay("keep-all", "mature"), 4},
 			{lay("drop-A", "partial"), 4},
-			{lay("drop-all", "partial"), 4},
 			{lay("drop-A", "immature"), 4},
 			{lay("drop-B", "mature"), 4},
 			{lay("drop-all/finalize-only", "mature"), 4},
 			{lay("drop-all/pipeline-off", "mature"), 4},
 			{lay("drop-A", "boundary"), 4},
 			{proj(lay("drop-A", "mature")), 4},
-			{slow(lay("drop-all", "mature")), 4},
 			{slow(Cfg{Sampler: "none", Clock: "mature", Mode: "full", Spans: s4}), 4},
 			{lay("none", "mature"), 4},
 		}
@@ -1178,7 +1188,7 @@ func main() {
 		}
 		us = f
 	}
-	budget := 110 * time.Second
+	budget := 140 * time.Second
 	if thorough {
 		budget = 17 * time.Minute
 	}
@@ -1210,6 +1220,7 @@ func main() {
 	states, trans, opsx, dedup, violCount, opErr, multi, cut := 0, 0, 0, 0, 0, 0, 0, 0
 	outcomes, notes, kinds := map[string]int{}, map[string]int{}, map[string]int{}
 	byDepth := map[string]int{}
+	byCfg := map[string]map[string]int{}
 	best := map[string]viol{}
 	var samples []string
 	if len(results) != len(us) {
@@ -1225,6 +1236,15 @@ func main() {
 		if ur.HarnessErr != "" {
 			fmt.Println("HARNESS-ERROR:", ur.Unit, ur.HarnessErr)
 			os.Exit(2)
+		}
+		if byCfg[ur.Cfg] == nil {
+			byCfg[ur.Cfg] = map[string]int{}
+		}
+		byCfg[ur.Cfg]["units"]++
+		byCfg[ur.Cfg]["states"] += ur.States
+		byCfg[ur.Cfg]["transitions"] += ur.Transitions
+		if ur.Cut {
+			byCfg[ur.Cfg]["units_cut"]++
 		}
 		states += ur.States
 		trans += ur.Transitions
@@ -1290,6 +1310,7 @@ func main() {
 		cfgList = append(cfgList, fmt.Sprintf("%s mode=%s spans=%s depth<=%d", sp.c, sp.c.Mode, sp.c.Spans, sp.d))
 	}
 	r.Set("bounds", map[string]any{"max_batches": maxBatches, "traces": traceIDs, "configurations": cfgList})
+	r.Set("by_configuration", byCfg)
 	if cut > 0 {
 		r.NotExhaustive(fmt.Sprintf("%d of %d units cut by the internal deadline", cut, len(us)))
 	}
